@@ -137,6 +137,15 @@ CHECKS = {
             "format_size with the same specifier.",
             "Rounding mode, automatic unit choice, units p/e and undocumented flag/unit combinations are don't-care.",
             "DESIGN.md 4 C14"),
+    "C16": ("exploration",
+            "property-based testing (Hypothesis): typed argument generators per function, differential against a Python "
+            "reference per documented function, composition through the reference, base64 round-trip law",
+            "Up to six generated calls per run (nesting depth <= 3, literals and name/ext/size/modified of generated "
+            "entries, non-ASCII and whitespace-run arguments, boundary positions for SUBSTR, overlapping REPLACE "
+            "needles, month/year-end dates) are compared cell by cell with the reference; numeric results to 1e-12.",
+            "Python's str/base64/math/datetime are the reference; unasserted corners (BIN of negatives, SUBSTR 0/out of "
+            "range, FORMAT_TIME wording) are don't-care with a weaker substring/seconds predicate.",
+            "DESIGN.md 4 C16"),
 }
 
 PENDING = {}
